@@ -1211,9 +1211,7 @@ example : fan4Conn.symbols = #[0, 5, 5, 7] ∧ ∃ mesh, Runs decodeConnectivity
 /-- **eb_connectivity_roundtrip_noS_partial** — the connectivity link for EVERY run without the symbol S, start faces
     ARBITRARY (interior start-face configurations included: closed meshes such as the tetrahedron): `hnoS`, the decoder's domain
     checks (`hnf`, `hnv`, `hedge`, and `hsz2`: `num_faces ≤ num_symbols + num_symbols / 3`, a check the decoder makes and the
-    encoder does not guarantee when an interior start face has an already visited neighbour), and `hv`: the decoder's pure
-    state creates at most `num_encoded_vertices` vertices in the symbol phase (a decidable condition on the symbols; proved from
-    the run for boundary start faces — `SplitFreeClose.hv_of_run` —, not yet for interior ones) ⇒ `Runs decodeConnectivity` on
+    encoder does not guarantee when an interior start face has an already visited neighbour) ⇒ `Runs decodeConnectivity` on
     the encoder's bytes, `ctIso = true` and `CTIso`.  Encoder: `EncTraceI.traceI_of_run` (`TraceI`: the init face is glued to the
     stack corner of its component, the fans of its three vertices are closed and consist of symbol faces); decoder:
     `DecSim.inv_stepI`, `connStart_I`, `connLoop_StI`, `ctIso_StI'`; assembly `ConnSplitFreeI.eb_connectivity_roundtrip_noS`. -/
@@ -1224,13 +1222,11 @@ theorem eb_connectivity_roundtrip_noS_partial (ch : ConnChoices) (pf : Faces) (c
     (hnv : conn.ct.numVertices - conn.ct.numIsolated ≤ 3 * 2 ^ 21)
     (hedge : 3 * conn.processed.size / 2 ≤
       (conn.ct.numVertices - conn.ct.numIsolated) * (conn.ct.numVertices - conn.ct.numIsolated - 1) / 2)
-    (hsz2 : conn.processed.size ≤ conn.symbols.size + conn.symbols.size / 3)
-    (hv : (DecSim.St conn.symbols.toList.reverse conn.processed.size (conn.ct.numVertices - conn.ct.numIsolated)
-      conn.symbols.size).vc.size ≤ conn.ct.numVertices - conn.ct.numIsolated) :
+    (hsz2 : conn.processed.size ≤ conn.symbols.size + conn.symbols.size / 3) :
     ∃ mesh, Runs decodeConnectivity 514 ([0] ++ conn.bytes) mesh 514 ∧
       ctIso conn.ct conn.processed mesh.numFaces mesh.c2v mesh.opp = true ∧
       CTIso conn.ct conn.processed mesh.numFaces mesh.c2v mesh.opp ∧ mesh.atts.size = conn.atts.size := by
-  obtain ⟨mesh, h1, h2, h3⟩ := NoSLink.eb_connectivity_roundtrip_noS_closed ch pf conn h hnoS hnf hnv hedge hsz2 hv
+  obtain ⟨mesh, h1, h2, h3⟩ := NoSLink.eb_connectivity_roundtrip_noS_closed ch pf conn h hnoS hnf hnv hedge hsz2
   exact ⟨mesh, h1, CTIsoComplete.ctIso_complete h2, h2, h3⟩
 
 /-- non-vacuity with an INTERIOR start face: the model's own run on the tetrahedron (symbols C R E, start-face flag `true`);
@@ -1241,7 +1237,7 @@ example : NoSLink.tetraConn.startFaces = #[true] ∧
   ⟨by decide +kernel, by
     obtain ⟨mesh, h1, h2, _⟩ := eb_connectivity_roundtrip_noS_partial exCh.conn NoSLink.tetra NoSLink.tetraConn
       NoSLink.tetraEncode (by decide +kernel) (by decide +kernel) (by decide +kernel) (by decide +kernel)
-      (by decide +kernel) (by decide +kernel)
+      (by decide +kernel)
     exact ⟨mesh, h1, h2⟩⟩
 
 end ConnectivityLink
